@@ -12,6 +12,16 @@
     binary calls of the chain's function only, reads t0 o0 t1 o1 ... t(n-1) in order (operands and
     operator ids stay in source order), uses every term and id exactly once, and has depth at most
     ceil(log2 n) (so long chains do not nest linearly).
+(3) Binary and ternary rules.  `visit_relation`, `visit_calc` (every operator token text the
+    grammar admits there) and `visit_expr` (`?:`) are executed on a context with abstract children
+    whose visits return real expressions of three shapes (identifier, a unary-minus call, a
+    literal): the node that comes back is exactly `call(find_operator(text), [lhs, rhs])` /
+    `call(_?_:_, [cond, then, else])` with the children visited once each, left to right, and the
+    children's expressions embedded unchanged (nothing is folded into or out of an operand).
+    `find_operator` itself is executed on the OPERATORS table of antlr/src/ast/operators.rs.
+(4) Chains through the visitor.  `visit_conditionalOr` / `visit_conditionalAnd` on a context with
+    n-1 operator tokens (n in 1..64): same obligations as (2), but the manager is filled by the
+    real `new_logic_manager` / `add_term`.
 What is not decided here: the nesting of grammar rules (expr > conditionalOr > ... > primary), i.e.
 precedence and associativity between different operators, which the ANTLR grammar fixes (C01).
 
@@ -25,7 +35,7 @@ import sys
 import time
 import z3
 sys.path.insert(0, os.path.dirname(os.path.abspath(__file__)))
-from mirsym import Engine, parse_mir, STD_MODELS, Unsupported, PanicFound, Ref, Opaque, is_sym
+from mirsym import Engine, parse_mir, STD_MODELS, Unsupported, PanicFound, Ref, SliceRef, Opaque, is_sym
 
 
 def main():
@@ -127,7 +137,11 @@ def main():
                 if res != want:
                     probs.append("an odd number of prefix operators is not one application of %s to the operand: %s" % (ops[opname], str(res)[:160]))
             if probs:
-                k = e.solver.model().eval(klen, model_completion=True).as_long() if e.check() else None
+                k = None
+                # prefer a witness on the side that is wrong
+                wrong_even = even_possible and res != last
+                if e.check(klen % 2 == (0 if wrong_even else 1)) or e.check():
+                    k = e.solver.model().eval(klen, model_completion=True).as_long()
                 failures.append(dict(desc, problems=probs, operator_count=k))
             else:
                 stats["proved"] += 1
@@ -251,12 +265,317 @@ def main():
                 samples.append(dict(desc, depth=depth_max[0], reading=[str(s) for s in seq[:7]]))
         stats["functions"] |= eng.stats["functions"]
 
+
+    # ---------------- binary / ternary rules and chains through the visitor
+    gen_src = open(os.path.join(repo, "antlr/src/gen/celparser.rs")).read()
+
+    def ext_fields(rule):
+        m = re.search(r"pub struct %sContextExt<'input>\s*\{(.*?)\n\}" % rule, gen_src, re.S)
+        if not m:
+            raise Unsupported("layout of %sContextExt" % rule)
+        return [re.match(r"\s*(?:pub )?(\w+):", l).group(1) for l in m.group(1).splitlines() if re.match(r"\s*(?:pub )?(\w+):", l)]
+
+    def token(text):
+        return [[Ref({0: ("token", text)}, 0, ())]]
+
+    def ided(k, shape):
+        if shape == "ident":
+            return [("id", k), ("enum", "Expr::Ident", [("string", "v%d" % k)])]
+        if shape == "neg":
+            inner = [("id", 100 + k), ("enum", "Expr::Ident", [("string", "w%d" % k)])]
+            return [("id", k), ("enum", "Expr::Call", [[("string", ops["NEGATE"]), ("None",), ("vec", [inner])]])]
+        return [("id", k), ("enum", "Expr::Literal", [("enum", "Val::Int", [k])])]
+
+    def m_visit2(e, m, a):
+        c = a[1].base if isinstance(a[1], SliceRef) else a[1]   # `&T as &dyn Trait` is printed as a pointer coercion
+        c = deref(e, c)
+        if not (isinstance(c, tuple) and c[0] == "ctxnode"):
+            raise Unsupported("visit of %r" % (str(c)[:80],))
+        cur["events"].append(("visit", c[1]))
+        return cur["children"][c[1]]
+
+    def m_call2(e, m, a):
+        name = a[2][1] if isinstance(a[2], tuple) else a[2]
+        cur["events"].append(("call", name))
+        return [("id_call", a[1]), ("enum", "Expr::Call", [[("string", name), ("None",), a[3]]])]
+
+    def m_get_text(e, m, a):
+        t = deref(e, a[0])
+        return ("str", t[1].encode())
+
+    def m_attr(e, m, a):
+        # child accessors generated by ANTLR: calc(i), relation(i), unary()
+        which = m.group(1)
+        if len(a) > 1:
+            key = "%s%d" % (which, a[1])
+        else:
+            key = which
+        if key in cur["attrs"]:
+            return ("Some", ("ctxnode", cur["attrs"][key]))
+        return ("None",)
+
+    def m_array_into_iter(e, m, a):
+        return ["array_iter", list(a[0]), 0]
+
+    def m_array_next(e, m, a):
+        it = deref(e, a[0])
+        if it[2] < len(it[1]):
+            it[2] += 1
+            return ("Some", it[1][it[2] - 1])
+        return ("None",)
+
+    def m_str_eq(e, m, a):
+        x, y = deref(e, a[0]), deref(e, a[1])
+        tx = x[1].decode() if isinstance(x[1], bytes) else x[1]
+        ty = y[1].decode() if isinstance(y[1], bytes) else y[1]
+        if not (isinstance(tx, str) and isinstance(ty, str)):
+            raise Unsupported("comparison of %r and %r" % (x, y))
+        return tx == ty
+
+    def m_tok_iter(e, m, a):
+        v = deref(e, a[0])
+        return ["tok_iter", a[0], 0, len(v[1])]
+
+    def m_enum_next(e, m, a):
+        it = deref(e, a[0])
+        inner = it[1]
+        if inner[2] < inner[3]:
+            k = inner[2]
+            inner[2] += 1
+            r = inner[1]
+            return ("Some", [k, Ref(r.frame, r.local, list(r.proj) + [("field", 1), ("idx", k)])])
+        return ("None",)
+
+    def m_vec_index2(e, m, a):
+        r, k = a
+        v = deref(e, r)
+        if is_sym(k):
+            raise Unsupported("symbolic index")
+        if k >= len(v[1]):
+            raise PanicFound("index out of bounds: %d of %d" % (k, len(v[1])), None)
+        return Ref(r.frame, r.local, list(r.proj) + [("field", 1), ("idx", k)])
+
+    def m_vec_push(e, m, a):
+        deref(e, a[0])[1].append(a[1])
+        return ("unit",)
+
+    def m_vec_remove(e, m, a):
+        v, k = deref(e, a[0]), a[1]
+        if is_sym(k):
+            raise Unsupported("symbolic index")
+        if k >= len(v[1]):
+            raise PanicFound("removal index (is %d) should be < len (is %d)" % (k, len(v[1])), None)
+        return v[1].pop(k)
+
+    def m_vec_insert(e, m, a):
+        v, k = deref(e, a[0]), a[1]
+        if is_sym(k):
+            raise Unsupported("symbolic index")
+        if k > len(v[1]):
+            raise PanicFound("insertion index (is %d) should be <= len (is %d)" % (k, len(v[1])), None)
+        v[1].insert(k, a[2])
+        return ("unit",)
+
+    def m_vec_truncate(e, m, a):
+        v, k = deref(e, a[0]), a[1]
+        if is_sym(k):
+            raise Unsupported("symbolic length")
+        del v[1][k:]
+        return ("unit",)
+
+    def m_inherent(e, m, a):
+        name = m.group(1)
+        c = [f for n, f in fns.items() if re.match(r"^parser::<impl at [^>]*>::%s(#\d+)?$" % name, n) and (name != "expr" or "LogicManager" in f.args[0])]
+        if len(c) != 1:
+            raise Unsupported("inherent method %s (%d candidates)" % (name, len(c)))
+        return e.call_fn(c[0], a)
+
+    rule_extern = [
+        (r"^(?:LogicManager|parser::Parser)::(expr|add_term|new_logic_manager|balanced_tree)$", m_inherent),
+        (r"^<BaseParserRuleContext<'_, \w+ContextExt<'_>> as Deref>::deref$", lambda e, m, a: Ref({0: cur["ext"]}, 0, ())),
+        (r"^<BaseParserRuleContext<'_, \w+ContextExt<'_>> as celparser::\w+ContextAttrs<'_>>::(\w+)$", m_attr),
+        (r"^<Rc<.*> as AsRef<.*>>::as_ref$", lambda e, m, a: Ref({0: deref(e, a[0])}, 0, ())),
+        (r"^<Rc<.*> as Deref>::deref$", lambda e, m, a: Ref({0: deref(e, a[0])}, 0, ())),
+        (r"^<Box<GenericToken<Cow<'_, str>>> as AsRef<GenericToken<Cow<'_, str>>>>::as_ref$", lambda e, m, a: deref(e, a[0])[0][0]),
+        (r"^<GenericToken<Cow<'_, str>> as antlr4rust::token::Token>::get_text$", m_get_text),
+        (r"^<parser::Parser as ParseTreeVisitorCompat<'_>>::visit$", m_visit2),
+        (r"^parser::Parser::global_call_or_macro$", m_call2),
+        (r"^ParserHelper::next_id$", lambda e, m, a: ("id_of", deref(e, a[1]))),
+        (r"^Option::<.*>::(is_some|is_none)$", lambda e, m, a: (deref(e, a[0])[0] == "Some") == (m.group(1) == "is_some")),
+        (r"^<\[\(&str, &str\); \d+\] as IntoIterator>::into_iter$", m_array_into_iter),
+        (r"^<std::array::IntoIter<\(&str, &str\), \d+> as Iterator>::next$", m_array_next),
+        (r"^<&str as PartialEq>::eq$", m_str_eq),
+        (r"^<str as PartialEq>::eq$", m_str_eq),
+        (r"^<String as PartialEq<(?:&)?str>>::eq$", m_str_eq),
+        (r"^<String as PartialEq>::eq$", m_str_eq),
+        (r"^String::as_str$", lambda e, m, a: deref(e, a[0])),
+        (r"^<String as Deref>::deref$", lambda e, m, a: deref(e, a[0])),
+        (r"^<Box<IdedExpr> as Deref>::deref$", lambda e, m, a: deref(e, a[0])[0][0]),
+        (r"^<Vec<IdedExpr> as Deref>::deref$", lambda e, m, a: a[0]),
+        (r"^Vec::<(?:IdedExpr|u64)>::clear$", lambda e, m, a: (deref(e, a[0])[1].clear(), ("unit",))[1]),
+        (r"^Vec::<(?:IdedExpr|u64)>::remove$", m_vec_remove),
+        (r"^Vec::<(?:IdedExpr|u64)>::insert$", m_vec_insert),
+        (r"^Vec::<(?:IdedExpr|u64)>::truncate$", m_vec_truncate),
+        (r"^<str as ToString>::to_string$", lambda e, m, a: ("string", a[0][1].decode())),
+        (r"^Box::<\[IdedExpr; (\d+)\]>::new_uninit$", m_new_uninit),
+        (r"^std::boxed::box_assume_init_into_vec_unsafe::<IdedExpr, \d+>$", m_assume_init),
+        (r"^Vec::<.*>::is_empty$", lambda e, m, a: len(deref(e, a[0])[1]) == 0),
+        (r"^Vec::<.*>::len$", lambda e, m, a: len(deref(e, a[0])[1])),
+        (r"^<Vec<Box<GenericToken<Cow<'_, str>>>> as Deref>::deref$", lambda e, m, a: a[0]),
+        (r"^core::slice::<impl \[Box<GenericToken<Cow<'_, str>>>\]>::iter$", m_tok_iter),
+        (r"^<std::slice::Iter<'_, Box<GenericToken<Cow<'_, str>>>> as Iterator>::enumerate$", lambda e, m, a: ["enum", a[0]]),
+        (r"^<Enumerate<std::slice::Iter<'_, Box<GenericToken<Cow<'_, str>>>>> as IntoIterator>::into_iter$", lambda e, m, a: a[0]),
+        (r"^<Enumerate<std::slice::Iter<'_, Box<GenericToken<Cow<'_, str>>>>> as Iterator>::next$", m_enum_next),
+        (r"^<Vec<Rc<.*>> as Index<usize>>::index$", m_vec_index2),
+        (r"^Vec::<u64>::new$", lambda e, m, a: ("vec", [])),
+        (r"^Vec::<(?:IdedExpr|u64)>::push$", m_vec_push),
+    ] + chain_extern
+
+    def rule_engine():
+        e = Engine(fns, consts, rule_extern, max_steps=400000)
+        e.ext_const = ext_const
+        e.steps = 0
+        e.discriminants = {"Expr::Unspecified": 0, "Expr::Call": 1, "Expr::Comprehension": 2, "Expr::Ident": 3, "Expr::List": 4,
+                           "Expr::Literal": 5, "Expr::Map": 6, "Expr::Select": 7, "Expr::Struct": 8}
+        return e
+
+    def make_ext(rule, values):
+        return [values.get(f, ("phantom",)) for f in ext_fields(rule)]
+
+    def run_binary(method, rule, text, shapes):
+        stats["scenarios"] += 1
+        desc = {"method": method, "operator_text": text, "operand_shapes": list(shapes)}
+        fn = find(r"^parser::<impl at [^>]*>::%s(#\d+)?$" % method)
+        eng = rule_engine()
+        children = {"lhs": ided(1, shapes[0]), "rhs": ided(2, shapes[1])}
+        acc = "calc" if method == "visit_calc" else "relation"
+        cur.clear()
+        cur.update({"events": [], "children": children, "ext": make_ext(rule, {"op": ("Some", token(text))}),
+                    "attrs": {acc + "0": "lhs", acc + "1": "rhs"}})
+        try:
+            res = eng.call_fn(fn, [Ref({0: [Opaque("parser"), Opaque("helper"), Opaque("x")]}, 0, ()), Opaque("ctx")])
+        except PanicFound as p:
+            failures.append(dict(desc, problems=["panic reachable: %s" % p.msg]))
+            return
+        stats["paths"] += 1
+        table = dict(re.findall(r'\("([^"]+)", (\w+)\)', ops_src[ops_src.index("const OPERATORS"):]))
+        want_name = ops[table[text]]
+        probs = []
+        if cur["events"] != [("visit", "lhs"), ("visit", "rhs"), ("call", want_name)]:
+            probs.append("events %s, expected lhs, rhs, then one call of %s" % (cur["events"], want_name))
+        want = ("enum", "Expr::Call", [[("string", want_name), ("None",), ("vec", [children["lhs"], children["rhs"]])]])
+        if not (isinstance(res, list) and len(res) == 2 and res[1] == want):
+            probs.append("the node is not %s(lhs, rhs) with the operands' expressions unchanged: %s" % (want_name, str(res)[:200]))
+        if probs:
+            failures.append(dict(desc, problems=probs))
+        else:
+            stats["proved"] += 1
+            if len(samples) < 8 and shapes == ("ident", "neg"):
+                samples.append(dict(desc, node="%s(lhs, rhs)" % want_name))
+        stats["functions"] |= eng.stats["functions"]
+
+    def run_conditional(shapes):
+        stats["scenarios"] += 1
+        desc = {"method": "visit_expr", "operator_text": "?:", "operand_shapes": list(shapes)}
+        fn = find(r"^parser::<impl at [^>]*>::visit_expr(#\d+)?$")
+        eng = rule_engine()
+        children = {"c": ided(1, shapes[0]), "t": ided(2, shapes[1]), "f": ided(3, shapes[2])}
+        cur.clear()
+        cur.update({"events": [], "children": children, "attrs": {},
+                    "ext": make_ext("Expr", {"e": ("Some", ("ctxnode", "c")), "op": ("Some", token("?")), "e1": ("Some", ("ctxnode", "t")), "e2": ("Some", ("ctxnode", "f"))})})
+        try:
+            res = eng.call_fn(fn, [Ref({0: [Opaque("parser"), Opaque("helper"), Opaque("x")]}, 0, ()), Opaque("ctx")])
+        except PanicFound as p:
+            failures.append(dict(desc, problems=["panic reachable: %s" % p.msg]))
+            return
+        stats["paths"] += 1
+        name = ops["CONDITIONAL"]
+        probs = []
+        if cur["events"] != [("visit", "c"), ("visit", "t"), ("visit", "f"), ("call", name)]:
+            probs.append("events %s, expected condition, then-branch, else-branch, one call" % (cur["events"],))
+        want = ("enum", "Expr::Call", [[("string", name), ("None",), ("vec", [children["c"], children["t"], children["f"]])]])
+        if not (isinstance(res, list) and len(res) == 2 and res[1] == want):
+            probs.append("the node is not %s(cond, then, else): %s" % (name, str(res)[:200]))
+        if probs:
+            failures.append(dict(desc, problems=probs))
+        else:
+            stats["proved"] += 1
+        stats["functions"] |= eng.stats["functions"]
+
+    def run_visitor_chain(method, rule, function, n):
+        stats["scenarios"] += 1
+        desc = {"method": method, "chain_of": function, "terms": n}
+        fn = find(r"^parser::<impl at [^>]*>::%s(#\d+)?$" % method)
+        eng = rule_engine()
+        children = {j: [("id", "t%d" % j), ("term", j)] for j in range(n)}
+        cur.clear()
+        cur.update({"events": [], "children": children, "attrs": {},
+                    "ext": make_ext(rule, {"e": ("Some", ("ctxnode", 0)), "s9": ("None",), "s8": ("None",), "conditionalAnd": ("None",), "relation": ("None",),
+                                           "ops": ("vec", [token("op%d" % j) for j in range(n - 1)]),
+                                           "e1": ("vec", [("ctxnode", j) for j in range(1, n)])})})
+        try:
+            res = eng.call_fn(fn, [Ref({0: [Opaque("parser"), Opaque("helper"), Opaque("x")]}, 0, ()), Opaque("ctx")])
+        except PanicFound as p:
+            failures.append(dict(desc, problems=["panic reachable: %s" % p.msg]))
+            return
+        stats["paths"] += 1
+        seq, depth_max, bad = [], [0], []
+
+        def walk(x, depth):
+            depth_max[0] = max(depth_max[0], depth)
+            if isinstance(x, list) and len(x) == 2 and isinstance(x[1], tuple) and x[1][0] == "term":
+                seq.append(("t", x[1][1]))
+                return
+            if not (isinstance(x, list) and len(x) == 2 and isinstance(x[1], tuple) and x[1][0] == "enum" and x[1][1] == "Expr::Call"):
+                bad.append("a node is neither a term nor a call: %s" % (str(x)[:120],))
+                return
+            call = x[1][2][0]
+            func = [f[1] for f in call if isinstance(f, tuple) and f[0] == "string"]
+            args = [f[1] for f in call if isinstance(f, tuple) and f[0] == "vec"]
+            if func != [function] or ("None",) not in call or not args or len(args[0]) != 2:
+                bad.append("an inner node is not a two-argument global call of %s: %s" % (function, str(call)[:160]))
+                return
+            walk(args[0][0], depth + 1)
+            seq.append(("o", x[0]))
+            walk(args[0][1], depth + 1)
+        walk(res, 0)
+        want = []
+        for j in range(n):
+            want.append(("t", j))
+            if j < n - 1:
+                want.append(("o", ("id_of", ("token", "op%d" % j))))
+        probs = list(bad)
+        visits = [x for x in cur["events"] if x[0] == "visit"]
+        if visits != [("visit", j) for j in range(n)]:
+            probs.append("operands visited %s, expected each once in source order" % (visits[:10],))
+        if seq != want:
+            probs.append("in-order reading of the tree is %s..., expected the source order %s..." % (seq[:9], want[:9]))
+        if n > 1 and depth_max[0] > math.ceil(math.log2(n)):
+            probs.append("depth %d exceeds ceil(log2 %d)" % (depth_max[0], n))
+        if probs:
+            failures.append(dict(desc, problems=probs))
+        else:
+            stats["proved"] += 1
+        stats["functions"] |= eng.stats["functions"]
+
     try:
         run_prefix("visit_LogicalNot", "LOGICAL_NOT")
         run_prefix("visit_Negate", "NEGATE")
         for function in (ops["LOGICAL_AND"], ops["LOGICAL_OR"]):
             for n in range(1, 65):
                 run_chain(n, function)
+        shapes3 = ("ident", "neg", "literal")
+        for text in ("<", "<=", ">", ">=", "==", "!=", "in"):
+            for sh in [(a, b) for a in shapes3 for b in shapes3]:
+                run_binary("visit_relation", "Relation", text, sh)
+        for text in ("*", "/", "%", "+", "-"):
+            for sh in [(a, b) for a in shapes3 for b in shapes3]:
+                run_binary("visit_calc", "Calc", text, sh)
+        for sh in [(a, b, c) for a in shapes3 for b in shapes3 for c in shapes3]:
+            run_conditional(sh)
+        for method, rule, function in (("visit_conditionalOr", "ConditionalOr", ops["LOGICAL_OR"]), ("visit_conditionalAnd", "ConditionalAnd", ops["LOGICAL_AND"])):
+            for n in range(1, 65):
+                run_visitor_chain(method, rule, function, n)
     except Unsupported as u:
         status = 2
         print("INCONCLUSIVE: unsupported: %s" % u)
